@@ -901,6 +901,11 @@ func ModifyRegister(register *object.Register, in ast.Node) (ast.Node, bool) {
 			// not handled currently (x--)
 			return nil, false
 		}
+	case *ast.PrefixExpression:
+		if t := in.Type(); (t == token.INCR || t == token.DECR) && in.Right == ast.Node(register) {
+			// not handled either (--x), needs a variable.
+			return nil, false
+		}
 	case *ast.FunctionLiteral:
 		// skip lambda/functions in functions.
 		return nil, false
